@@ -50,9 +50,21 @@ PROPS["C12"] = {"engines": [("strlit", {"quick": 2500, "thorough": 60000})], "ru
                                 "literal and on an independent random literal", "the formatter preserves the value of the literal (AstPreserving) — validated per case by evaluating the written argument",
                                 "quote characters are printable (forced hypothesis of tripleQuote_isSome)"]}
 PROPS["C07"]["engines"].append(("session", {"quick": 64, "thorough": 1500}))
+PROPS["C06"]["engines"].append(("session", {"quick": 64, "thorough": 1500}))
+PROPS["C06"]["rule"] = SITE_RULE + " ; plus " + SESSION_RULE
 PROPS["C07"]["rule"] = SITE_RULE + " ; plus " + SESSION_RULE
 
+REWRITE_RULE = ("seeded generator (harness/engines/rewrite.py): whole test files with optional docstring / __future__ import / other imports, 1-5 test functions "
+                "(some tab-indented), statements over == <= in [key], non-ASCII text left of the call on the same line, two snapshots on one line, snapshot as argument "
+                "of a helper call, multi-line list arguments with comments and trailing commas, values needing HasRepr (import insertion), CRLF files, files with and "
+                "without final newline, formatter-clean or not, format-command=cat; all 16 approved sets; non-trivial = the file changed")
+for _p in ("C03", "C20"):
+    PROPS[_p] = {"engines": [("rewrite", {"quick": 1000, "thorough": 30000})], "rule": REWRITE_RULE,
+                 "assumptions": ["asttokens / tokenize positions are (line, code-point column) pairs inside their line (InLines hypothesis of checkSorted_chained) — every recorded replacement is replayed through the model",
+                                 "black is AST-preserving and idempotent on the generated files (validated: AST outside the arguments compared, black re-run on the result)"]}
+
 ENGINES = {
+    "rewrite": "whole-file rewriting: recorded replacements -> Model/Rewrite.lean newCode vs written file; byte/AST preservation outside snapshot() arguments; formatter-clean stays clean",
     "session": "real pytest sessions in throw-away projects against the gate model (Model/Session.lean); three-way run with Example.run_inline / run_pytest",
     "strlit": "str/bytes -> literal text -> value: model literal vs value_to_token, evalLit vs ast.literal_eval, written argument evaluated",
     "align": "white-box differential run of _align.align/add_x on arbitrary relations + observable-level fix of list/tuple displays with hand-written elements",
@@ -97,3 +109,11 @@ PROPS["C12"]["level_text"] = ("Theorems (Props/C12.lean; strings = lists of code
     "evalBytes_bytesRepr, evalLit_tripleQuote, valueToLiteral_sound, valueToLiteral_roundtrip, tripleQuote_isSome(_iff), pyRepr_no_newline. Correspondence: model literal "
     "text = value_to_token text character by character; evalLit = ast.literal_eval; direct oracle: the argument in the rewritten file evaluates to the original value "
     "(top level and nested, black / format-command).")
+
+PROPS["C03"]["level_text"] = ("Theorems (Props/C03.lean, text = list of code points incl. CR/LF variants): replace_frame / replaceFrom_frame (text before the first and after the last edited "
+    "region survives verbatim, stretches between edits too), replaceText_sorted_chained, lineToOffset_offsetToLine (line/column <-> offset round trip, so multi-byte characters left of an edit "
+    "cannot shift it), lineToOffset_mono, checkSorted_chained (the code's own non-overlap check makes the offset edits chained), newcode_unformatted, newcode_overlap_rejected, "
+    "newcode_outside_preserved. Correspondence: the replacements the real code records, replayed through the model, give the written file character for character; direct oracle: the file "
+    "compiles, bytes (or AST) outside the snapshot() arguments are unchanged, only the permitted import is added.")
+PROPS["C20"]["level_text"] = ("Theorems clean_stays_clean (Idempotent fmt, file clean or format-command set => result is a fixed point of fmt), dirty_not_reformatted, dirty_outside_untouched, "
+    "dirty_formatter_irrelevant. Idempotence of black is checked on every case by running black independently on the result.")
